@@ -1190,7 +1190,9 @@ static void struct_initializer1(Token **rest, Token *tok, Initializer *init) {
 
 // struct-initializer2 = initializer ("," initializer)*
 static void struct_initializer2(Token **rest, Token *tok, Initializer *init, Member *mem) {
-  bool first = true;
+  // If we continue after a designated member, tok points to the
+  // comma that follows it.
+  bool first = (mem == init->ty->members);
 
   for (; mem && !is_end(tok); mem = mem->next) {
     Token *start = tok;
